@@ -28,6 +28,8 @@ func runC16(r *vf.Run) {
 		"distinct_nontrivial = distinct (pre-existing content kind, writer content, entry point) and (dataset, option set, history) combinations")
 	r.Assume("modification = change of file content, size or mode (atime is not considered)", "strace sees every syscall of the traced process tree")
 	c16Clobber(r)
+	c16NoDescriptors(r)
+	c16FaultSweep(r)
 	c16ReadOnly(r)
 	c16Strace(r)
 	for _, k := range []string{"empty", "valid-index", "random-bytes", "partial-index", "read-only-mode"} {
